@@ -9,12 +9,12 @@ CONSTANTS
   BadEvents = FALSE
   FoUuid <- Fo10
   Savers = {"p"}
-  MaxSaves = 1
+  MaxSaves = 0
   MaxCrash = 0
   MaxAcks = 1
   MaxGen = 4
-  MaxNotify = 2
-  MaxEnds = 1
+  MaxNotify = 1
+  MaxEnds = 2
   MaxFail = 0
   AutoReset = "earliest"
   Finite = FALSE
